@@ -42,6 +42,25 @@ def _opaque_call(cfg, nd, funcs):
     return None
 
 
+def _self_call(cfg, nd):
+    """the call by which the function of this CFG calls itself in this node: the Call when the node is that call as a
+    statement, False when the value is used (not supported), None when there is none"""
+    if nd.ast is None or nd.kind in ('entry', 'exit'):
+        return None
+    nm = cfg.fn.name
+    params = [a_.arg for a_ in cfg.fn.args.args]
+    is_m = bool(params) and params[0] == 'self'
+    for x in cfg.walk_exprs(nd):
+        if isinstance(x, ast.Call):
+            f = x.func
+            hit = (isinstance(f, ast.Attribute) and isinstance(f.value, ast.Name) and f.value.id == 'self' and f.attr == nm) if is_m \
+                else (isinstance(f, ast.Name) and f.id == nm)
+            if hit:
+                a = nd.ast.value if isinstance(nd.ast, ast.Expr) else nd.ast
+                return x if (a is x and nd.kind in ('stmt', 'expr')) else False
+    return None
+
+
 def explore(cfg, env0, funcs=None, on_node=None, max_states=20000, start=None, unknown='both', on_unknown=None, pinned=(),
             concrete_exceptions=False, on_exception=None):
     """Explore all abstract states reachable from entry with environment `env0` (dict path -> constant).
@@ -63,7 +82,58 @@ def explore(cfg, env0, funcs=None, on_node=None, max_states=20000, start=None, u
             # closed evaluation: the effect of this helper on the state is not known here
             raise NotClosedTest('the call %s of a helper that was not expanded in place' % ast.unparse(_opaque_call(cfg, nd, funcs))[:60])
         succs = []
-        if nd.kind == 'test':
+        rec = _self_call(cfg, nd) if on_unknown is not None else None
+        if rec is not None and not (funcs and (cfg.fn.name in funcs or ('self.' + cfg.fn.name) in funcs)):
+            # closed evaluation of a function that calls itself (as a statement): the call is run, to a bounded depth,
+            # on the object's state of the moment; what it leaves behind is the state the caller continues with
+            depth = env.get('@depth', 0)
+            if depth >= 12 or rec is False:
+                raise NotClosedTest('the recursive call in %s' % cfg.fn.name)
+            params = [a_.arg for a_ in cfg.fn.args.args]
+            is_m = bool(params) and params[0] == 'self'
+            names = params[1:] if is_m else params
+            if len(rec.args) > len(names) or rec.keywords:
+                raise NotClosedTest('the recursive call in %s' % cfg.fn.name)
+            local = set(params) | {n_.id for n_ in ast.walk(cfg.fn) if isinstance(n_, ast.Name) and isinstance(n_.ctx, ast.Store)}
+            sub = {k_: v_ for k_, v_ in env.items() if k_.split('.')[0].split('[')[0] not in local or k_.startswith('self.')}
+            sub = {k_: v_ for k_, v_ in sub.items() if not k_.startswith('@it')}
+            try:
+                for n_, a_ in zip(names, rec.args):
+                    v_ = A.ev(a_, env, funcs)
+                    sub[n_] = tuple(v_) if isinstance(v_, list) else v_
+                    hash(sub[n_])
+                nd_ = len(cfg.fn.args.defaults)
+                for i_, n_ in enumerate(names[len(rec.args):], len(rec.args)):
+                    k_ = i_ - (len(names) - nd_)
+                    if k_ < 0:
+                        raise A.NotClosed('missing argument')
+                    sub[n_] = A.ev(cfg.fn.args.defaults[k_], {})
+            except (A.NotClosed, TypeError, AttributeError, IndexError, KeyError, ValueError):
+                raise NotClosedTest('the arguments of the recursive call in %s' % cfg.fn.name)
+            sub['@depth'] = depth + 1
+            finals = []
+
+            def inner(n2, e2):
+                if n2 is cfg.exit:
+                    finals.append(dict(e2))
+                elif on_node is not None:
+                    on_node(n2, e2)
+            explore(cfg, sub, funcs=funcs, on_node=inner, max_states=max_states, unknown=unknown, on_unknown=on_unknown, pinned=pinned,
+                    concrete_exceptions=concrete_exceptions, on_exception=on_exception)
+            uniq = []
+            for f_ in finals:
+                if f_ not in uniq:
+                    uniq.append(f_)
+            if len(uniq) != 1:
+                raise NotClosedTest('the recursive call in %s has %d outcomes' % (cfg.fn.name, len(uniq)))
+            env2 = {k_: v_ for k_, v_ in env.items() if not (k_.startswith('self.') or k_ == '@trace' or k_ == '@mut')}
+            for k_, v_ in uniq[0].items():
+                if k_.startswith('self.') or k_ in ('@trace', '@mut'):
+                    env2[k_] = v_
+            for s, l in nd.succ:
+                if l != 'exc':
+                    succs.append((s, env2))
+        elif nd.kind == 'test':
             val = _decide(nd.ast, env, funcs)
             for s, l in nd.succ:
                 if l == 'exc':
@@ -164,8 +234,20 @@ def explore(cfg, env0, funcs=None, on_node=None, max_states=20000, start=None, u
                     try:
                         env2[p] = A.ev(a.value, env, funcs)
                         if isinstance(env2[p], list):
-                            env2[p] = tuple(env2[p])
+                            # a list can only come out of a model object of the rule: a plain name bound to it is another
+                            # name for that very list (what is appended through it is seen through the model)
+                            if isinstance(a.targets[0], ast.Name) and isinstance(a.value, (ast.Attribute, ast.Name)):
+                                env2[p] = A.ListRef(env2[p])
+                            else:
+                                env2[p] = tuple(env2[p])
                         hash(env2[p])
+                        t0 = a.targets[0]
+                        if isinstance(t0, ast.Attribute) and isinstance(t0.value, ast.Name) and getattr(env.get(t0.value.id), '_sa_setattr', False):
+                            # a model that takes attribute stores: the name is rebound to a copy that carries the new value
+                            import copy as _copy
+                            m_ = _copy.copy(env[t0.value.id])
+                            setattr(m_, t0.attr, env2[p])
+                            env2[t0.value.id] = m_
                     except (A.NotClosed, TypeError, AttributeError, IndexError, KeyError, ValueError):
                         env2.pop(p, None)
             if nd.kind == 'stmt' and isinstance(a, ast.Assign) and len(a.targets) == 1 and isinstance(a.targets[0], (ast.Tuple, ast.List)) \
@@ -296,7 +378,7 @@ def explore(cfg, env0, funcs=None, on_node=None, max_states=20000, start=None, u
             if nd.kind == 'stmt' and isinstance(a, ast.Expr) and isinstance(a.value, ast.Call) and isinstance(a.value.func, ast.Attribute) \
                     and a.value.func.attr in ('append', 'extend', 'insert') and not a.value.keywords:
                 p = path_of(a.value.func.value)
-                if not (p and p in env):
+                if not (p and p in env) or isinstance(env.get(p), A.ListRef):
                     try:
                         recv_ = A.ev(a.value.func.value, env, funcs)
                         if isinstance(recv_, list):
@@ -423,7 +505,7 @@ class NotClosedTest(Exception):
     pass
 
 
-def traces(cfg, env0, call_key, funcs=None, max_states=20000, returns=False):
+def traces(cfg, env0, call_key, funcs=None, max_states=20000, returns=False, with_keywords=False):
     """Run a function from its entry under the closed environment `env0` and collect, for every way it can end, the
     sequence of calls of interest made on the way: `call_key(call)` names a call (or returns None to ignore it); its
     arguments are evaluated in the environment of the moment (text of the expression when not closed).  Returns the
@@ -453,6 +535,14 @@ def traces(cfg, env0, call_key, funcs=None, max_states=20000, returns=False):
                         except Exception:
                             v = ('expr', ast.unparse(a_))
                         vals.append(v)
+                    if with_keywords:
+                        for kw_ in x.keywords:
+                            try:
+                                v = A.ev(kw_.value, env, funcs)
+                                hash(v)
+                            except Exception:
+                                v = ('expr', ast.unparse(kw_.value))
+                            vals.append((kw_.arg, v))
                     tr = tr + ((k, tuple(vals)),)
         if returns and nd.kind == 'return':
             try:
@@ -496,8 +586,13 @@ def run_function(cfg, fn, args, funcs=None, env=None):
         env0[p_] = v
     outs = []
 
+    fell_off = []
+
     def on_node(nd, e):
+        if nd is cfg.exit and not e.get('@returned'):
+            fell_off.append(True)
         if nd.kind == 'return':
+            e['@returned'] = True
             if nd.ast.value is None:
                 outs.append(None)
             else:
@@ -523,8 +618,7 @@ def run_function(cfg, fn, args, funcs=None, env=None):
     if escaped:
         outs.append(('raises', type(escaped[0]).__name__))
     # falling off the end returns None
-    fell = any(cfg.nodes[i].kind != 'return' and any(s_ is cfg.exit and l != 'exc' for s_, l in cfg.nodes[i].succ) for i in visited)
-    if fell:
+    if fell_off:
         outs.append(None)
     vals = []
     for o in outs:
